@@ -7,7 +7,7 @@
 //      mpt_dispatch_emit by id | by (fragmented) message | default (ev==NULL) /
 //      mpt_dispatch_hash with a command text, directly or registered as handler of id 4
 //      (MessageCommand) in the same dispatcher / mpt_dispatch_fini (+ re-init).
-//    One case in four drives the same model through the C++ wrapper of mpt++/event.cpp instead:
+//    About three cases in ten drive the same model through the C++ wrapper of mpt++/event.cpp instead:
 //    mpt::dispatch constructor/destructor, set_handler, handler, reserve, set_error, set_default.
 //    ids: 0..7, 0x100000003 (low byte and low 32 bits collide with 3), mpt_hash() of a small
 //    vocabulary of command words, ids handed out by reserve, arbitrary first bytes.
@@ -124,6 +124,7 @@ struct World {
     for (const char *s : words) add_word(s);
     add_word(std::string(127, 'y'));
     add_word(std::string(128, 'x'));
+    add_word(std::string(129, 'z'));
   }
   ~World() {                 // release everything also when a check has thrown
     if (d_init) { if (cxx) d->~dispatch(); else mpt_dispatch_fini(d); }
@@ -208,8 +209,8 @@ struct World {
   }
 
   // ---- draws ----------------------------------------------------------------------------------
-  uintptr_t draw_id(Table &t) {
-    switch (c.weighted({8, 1, 3, 3, 1})) {
+  uintptr_t draw_id(Table &t, bool emit = false) {
+    switch (emit ? c.weighted({4, 1, 1, 7, 1}) : c.weighted({8, 1, 3, 3, 1})) {
       case 0: return c.pick(8);
       case 1: return kLargeId;
       case 2: return vocab[c.pick(vocab.size())].id;
@@ -416,6 +417,7 @@ struct World {
     VP_CHECK(c, !t.live.count(id), "reserve-id", "mpt_command_reserve(%s, %zu) hands out id %#zx which is still live", t.name, width, (size_t)id);
     VP_CHECK(c, cmd->cmd != 0, "reserve-id", "reserved entry is not active");
     if (id < top) c.label("reserve:reused-low-id");
+    if ((uint64_t)id == width_limit(width)) c.label("reserve:id==limit");
     if (activate) {  // as mpt_connection_await does
       Reg *r = newreg(t.name[0], id);
       r->registered = true;
@@ -525,7 +527,23 @@ struct World {
     std::vector<uint8_t> bytes;  // header + text
     bool has_word = false;
     std::string word;
+    bool split = false;       // the word does not lie in one fragment (set by word_split)
+    // mpt_dispatch_hash copies a word that is spread over fragments into a 128 byte buffer and documents
+    // "large unaligned text command" as a refusal: such an event may be refused, never misdelivered
+    bool may_refuse() const { return has_word && split && word.size() > 128; }
   };
+  void word_split(Text &t, const Msg &m) {
+    if (!t.has_word) return;
+    size_t pos = 2, end = 2 + t.word.size(), off = 0;
+    std::vector<size_t> lens;
+    lens.push_back(m.m.used);
+    for (auto &v : m.iov) lens.push_back(v.iov_len);
+    for (size_t n : lens) { if (off < end && off + n > pos && !(off <= pos && off + n >= end)) t.split = true; off += n; }
+    if (t.split) c.label("hash:word-in-several-fragments");
+    if (t.word.size() >= 127) c.label("hash:word>=127");
+    if (t.split && t.word.size() == 128) c.label("hash:split-word-of-128");
+    if (t.may_refuse()) c.label("hash:split-word>128");
+  }
   Text draw_text(bool command_type) {
     Text t;
     int sep;
@@ -545,7 +563,7 @@ struct World {
         break;
       }
       default: {
-        size_t n = c.near({1, 4, 127, 128}, 128);
+        size_t n = c.near({1, 4, 127, 128, 129}, 200);
         if (!n) n = 1;
         static const char A[] = "abcdefghijklmnopqrstuvwxyz0123456789_.";
         for (size_t i = 0; i < n; i++) t.word += A[c.pick(sizeof A - 1)];
@@ -640,7 +658,11 @@ struct World {
     log.clear();
     int ret = mpt_dispatch_emit(d, ev);
     c.logf("  mpt_dispatch_emit = %d (%#x), _def %#zx, ev->id %#zx, replies %d", ret, ret, (size_t)d->_def, (size_t)ev->id, reply.replies);
-    if (want) {
+    if (want && via_hash && text->may_refuse() && log.empty()) {
+      VP_CHECK(c, ret < 0 || (ret & FFail), "emit-return", "%s: the forwarder refused the long fragmented command word but mpt_dispatch_emit returns %#x", op, ret);
+      emit_unobserved(op, ret, false);
+      c.label("emit:long-word-refused");
+    } else if (want) {
       expect(op, {{want, false}});
       check_seen(op, seen_id, msg, true);
       emit_result(op, ret, seen_id, via_hash);
@@ -659,7 +681,7 @@ struct World {
     after(op);
   }
   void op_emit_id() {
-    uintptr_t id = draw_id(T[0]);
+    uintptr_t id = draw_id(T[0], true);
     event ev;
     ev.id = id;
     ev.reply = c.chance(224) ? reinterpret_cast<reply_context *>(&reply) : 0;
@@ -706,6 +728,7 @@ struct World {
     ev.reply = c.chance(224) ? reinterpret_cast<reply_context *>(&reply) : 0;
     c.logf("emit by message, ev->id preset to %#zx", (size_t)ev.id);
     build(m, bytes);
+    if (is_text) word_split(text, m);
     ev.msg = &m.m;
     c.label("op:emit-msg");
     if (bytes.empty()) {
@@ -773,17 +796,7 @@ struct World {
     build(m, text.bytes);
     ev.msg = &m.m;
     c.label("op:hash");
-    // does the command word lie in one fragment?
-    if (text.has_word) {
-      size_t pos = 2, end = 2 + text.word.size(), off = 0;
-      std::vector<size_t> lens;
-      lens.push_back(m.m.used);
-      for (auto &v : m.iov) lens.push_back(v.iov_len);
-      bool split = false;
-      for (size_t n : lens) { if (off < end && off + n > pos && !(off <= pos && off + n >= end)) split = true; off += n; }
-      if (split) c.label("hash:word-in-several-fragments");
-      if (text.word.size() >= 127) c.label("hash:word>=127");
-    }
+    word_split(text, m);
     uintptr_t id = text.has_word ? mpt_hash(text.word.data(), (int)text.word.size()) : 0;
     const char *how = "";
     Reg *want = 0;
@@ -800,6 +813,9 @@ struct World {
       for (const Call &k : log) VP_CHECK(c, k.r == fb && !k.eol, "wrong-handler", "hash(no word): registration #%u invoked", k.r->serial);
       VP_CHECK(c, log.size() <= 1, "wrong-handler", "hash(no word): %zu calls", log.size());
       c.label("hash:no-word");
+    } else if (want && text.may_refuse() && log.empty()) {
+      VP_CHECK(c, ret < 0 || (ret & FFail), "hash-return", "hash: long fragmented command word refused but mpt_dispatch_hash returns %#x", ret);
+      c.label("hash:long-word-refused");
     } else if (want) {
       expect("hash", {{want, false}});
       check_seen("hash", id, &m.m, true);
@@ -960,8 +976,9 @@ static Target t = {
     "random: history (op count by continue-bits) over the table of a dispatch (4 init styles: with/without mpt_dispatch_init, harness/library/no fallback) and a stand-alone reply array of "
     "mpt_dispatch_set / (id,NULL) / mpt_command_set add|replace|delete / mpt_command_clear / mpt_command_get / mpt_command_reserve(width 0..12) + activate + release / bursts of up to 150 "
     "reservations (1-byte id limit, wrap, low-id search) / mpt_dispatch_emit by id, by message (first byte, 1..n exact-size fragments incl. empty ones), default (NULL) / mpt_dispatch_hash "
-    "directly and as handler of id 4 with command texts (separators NUL, space, ':' ','; words up to 128 bytes, split over fragments) / mpt_dispatch_fini + re-init; ids 0..7, 0x100000003, "
-    "hashes of 6 words, reserved ids, random bytes; per emit the invoked handler returns a drawn flag set (0..7, Retry, CtlError) or one of 10 errors and may rewrite ev->id. "
+    "directly and as handler of id 4 with command texts (separators NUL, space, ':' ','; words up to 200 bytes around the 128 byte copy buffer, split over fragments) / mpt_dispatch_fini + re-init; "
+    "about 3 cases in 10 drive the dispatcher through the C++ wrapper instead (mpt::dispatch ctor/dtor, set_handler, handler, reserve, set_error, set_default); ids 0..7, 0x100000003, "
+    "hashes of 7 words, reserved ids, random bytes; per emit the invoked handler returns a drawn flag set (0..7, Retry, CtlError) or one of 10 errors and may rewrite ev->id. "
     "non-trivial: an event was delivered to a registered handler after a replace or a slot reuse in the dispatcher table, or fini ran with >= 2 live registrations; distinct by hash of the draw sequence.",
     run,
     {800, 4000},
